@@ -7,8 +7,8 @@
 (* All numbers are rationals in lattice units (one lattice unit = 1/LAT of the unit interval).          *)
 EXTENDS Rational, Sequences, FiniteSets
 CONSTANTS LAT, GRIDS, DATASETS, MAXD
-VARIABLES dim, grid, data, labels, mass, stiff, rhs
-vars == <<dim, grid, data, labels, mass, stiff, rhs>>
+VARIABLES dim, grid, data, labels, mass, stiff, rhs, keys
+vars == <<dim, grid, data, labels, mass, stiff, rhs, keys>>
 Inner(g) == 2..(Len(g) - 1)
 (* 1-D mass matrix entry of the hats at inner points i, j of grid g *)
 M1(g, i, j) == IF i = j THEN Norm(g[i + 1] - g[i - 1], 3)
@@ -31,14 +31,39 @@ Stiff(G) == [pq \in Points(G) \X Points(G) |->
 (* right-hand side: (signed) sample mean of every basis function *)
 Rhs(G, X, Y) == [p \in Points(G) |->
                    RDiv(RSum([k \in 1..Len(X) |-> RMul(Q(Y[k]), RProd([d \in 1..Len(G) |-> Hat(G[d], p[d], X[k][d])], Len(G)))], Len(X)), Q(Len(X)))]
+(* ---------------- reuse cache of matrix entries (DensityEstimation.old_R) ---------------- *)
+(* The cache key of a pair of hats (get_domain_overlap_width): if the second point lies in the closed support of the  *)
+(* first in every dimension: <<sorted overlap widths, sorted point distances>>, otherwise the all-zero key.            *)
+MinI(a, b) == IF a < b THEN a ELSE b
+MaxI(a, b) == IF a > b THEN a ELSE b
+AbsI(v) == IF v < 0 THEN -v ELSE v
+SortAsc(f) == LET n == Len(f)
+                  RECURSIVE ins(_, _)
+                  ins(sq, x) == IF sq = <<>> THEN <<x>> ELSE IF x <= Head(sq) THEN <<x>> \o sq ELSE <<Head(sq)>> \o ins(Tail(sq), x)
+                  RECURSIVE go(_)
+                  go(i) == IF i = 0 THEN <<>> ELSE ins(go(i - 1), f[i])
+              IN  go(n)
+Key(G, p, q) ==
+    LET D == Len(G)
+        lo(r, d) == G[d][r[d] - 1]
+        hi(r, d) == G[d][r[d] + 1]
+        adj == \A d \in 1..D : lo(p, d) <= G[d][q[d]] /\ G[d][q[d]] <= hi(p, d)
+    IN  IF adj THEN <<SortAsc([d \in 1..D |-> AbsI(MinI(hi(p, d), hi(q, d)) - MaxI(lo(p, d), lo(q, d)))]),
+                      SortAsc([d \in 1..D |-> AbsI(G[d][p[d]] - G[d][q[d]])])>>
+        ELSE <<[d \in 1..D |-> 0], [d \in 1..D |-> 0]>>
+KeyTable(G) == {<<Key(G, pq[1], pq[2]), Mass(G)[pq]>> : pq \in {x \in Points(G) \X Points(G) : TRUE}}
+
 Init == /\ dim \in 1..MAXD
         /\ grid \in [1..dim -> GRIDS]
         /\ \E ds \in DATASETS : /\ data = [k \in 1..Len(ds.x) |-> SubSeq(ds.x[k], 1, dim)] /\ labels = ds.y
         /\ mass = Mass(grid) /\ stiff = Stiff(grid) /\ rhs = Rhs(grid, data, labels)
+        /\ keys = KeyTable(grid)
 Next == UNCHANGED vars
 Spec == Init /\ [][Next]_vars
 (* ---------------- design-level clauses ---------------- *)
 Pts == Points(grid)
+(* a cached entry may be reused for every pair of hats with the same key: the key must determine the value *)
+C17_KeyDeterminesValue == \A a \in keys : \A b \in keys : a[1] = b[1] => a[2] = b[2]
 C16_Symmetric == \A p \in Pts : \A q \in Pts : mass[<<p, q>>] = mass[<<q, p>>] /\ stiff[<<p, q>>] = stiff[<<q, p>>]
 (* x^T M x > 0 for the sign vectors x in {-1, 0, 1}^n \ {0} (necessary for positive definiteness), small grids only *)
 SignVectors == [Pts -> {-1, 0, 1}] \ {[p \in Pts |-> 0]}
